@@ -29,6 +29,39 @@ logger = get_logger(__name__)
 # Connection timeout in seconds
 REQUEST_TIMEOUT = 30.0
 
+# Maximum size of the <META> field of a response header, in bytes
+MAX_META_SIZE = 1024
+
+
+def _encode_response(
+    status: object, meta: object, body: object
+) -> tuple[bytes, bytes]:
+    """Serialise a response into (header, body) bytes.
+
+    Never raises and always yields a well-formed header: a two-digit status in
+    10-69, a single-line meta of at most MAX_META_SIZE bytes, and a body only
+    for 2x statuses. Anything a handler got wrong is turned into a 40 response
+    here, before a single byte has been written.
+    """
+    body_bytes = b""
+    if isinstance(status, bool) or not isinstance(status, int) or not 10 <= status <= 69:
+        status, meta, body = 40, "Server error: handler returned an invalid status", None
+    if 20 <= status <= 29 and body:
+        try:
+            if isinstance(body, (bytes, bytearray, memoryview)):
+                body_bytes = bytes(body)
+            else:
+                body_bytes = str(body).encode("utf-8")
+        except UnicodeEncodeError:
+            status, meta = 40, "Server error: response body is not valid text"
+            body_bytes = b""
+    meta_text = str(meta if meta is not None else "")
+    meta_text = meta_text.replace("\r", " ").replace("\n", " ")
+    meta_bytes = meta_text.encode("utf-8", "replace")[:MAX_META_SIZE]
+    # Do not leave a truncated multi-byte sequence at the end
+    meta_bytes = meta_bytes.decode("utf-8", "ignore").encode("utf-8")
+    return f"{status} ".encode("ascii") + meta_bytes + CRLF, body_bytes
+
 
 class GeminiServerProtocol(asyncio.Protocol):
     """Server-side protocol for handling Gemini and Titan requests.
@@ -88,6 +121,9 @@ class GeminiServerProtocol(asyncio.Protocol):
         self.url_line_received = False
         self.awaiting_titan_content = False
 
+        # One response per connection
+        self._response_sent = False
+
     def connection_made(self, transport: asyncio.BaseTransport) -> None:
         """Called when a client connects.
 
@@ -125,6 +161,10 @@ class GeminiServerProtocol(asyncio.Protocol):
         Args:
             data: Raw bytes received from the client.
         """
+        # Nothing more to read once the response has been sent
+        if self._response_sent:
+            return
+
         self.buffer += data
 
         # State 1: Waiting for URL line (Gemini or Titan)
@@ -243,8 +283,16 @@ class GeminiServerProtocol(asyncio.Protocol):
         Args:
             response: The response to send.
         """
-        if not self.transport:
+        if not self.transport or self._response_sent:
             return
+        self._response_sent = True
+
+        if self.timeout_handle:
+            self.timeout_handle.cancel()
+            self.timeout_handle = None
+
+        # Serialise first: nothing is written unless everything can be
+        header, body = _encode_response(response.status, response.meta, response.body)
 
         # Calculate request duration
         duration_ms = 0.0
@@ -255,23 +303,16 @@ class GeminiServerProtocol(asyncio.Protocol):
         logger.info(
             "request_completed",
             client_ip=self.peer_name[0] if self.peer_name else "unknown",
-            status=response.status,
+            status=int(header[:2]),
             path=response.url or "unknown",
-            body_size=len(response.body) if response.body else 0,
+            body_size=len(body),
             duration_ms=round(duration_ms, 2),
         )
 
-        # Build response header: <STATUS><SPACE><META><CRLF>
-        header = f"{response.status} {response.meta}\r\n"
-        self.transport.write(header.encode("utf-8"))
-
-        # Send body if present (only for 2x success responses)
-        # FIX: Handle both text (str) and binary (bytes) content
-        if response.body:
-            if isinstance(response.body, bytes):
-                self.transport.write(response.body)
-            else:
-                self.transport.write(response.body.encode("utf-8"))
+        # Header <STATUS><SPACE><META><CRLF>, then the body (2x only)
+        self.transport.write(header)
+        if body:
+            self.transport.write(body)
 
         # Close connection (Gemini/Titan: one request per connection)
         self.transport.close()
@@ -302,9 +343,9 @@ class GeminiServerProtocol(asyncio.Protocol):
                 duration_ms=round(duration * 1000, 2),
             )
             # Send timeout response
-            response = "40 Request timeout\r\n"
-            self.transport.write(response.encode("utf-8"))
-            self.transport.close()
+            self._send_error_response(
+                StatusCode.TEMPORARY_FAILURE, "Request timeout"
+            )
 
     def _route_request(self, request: GeminiRequest, client_ip: str) -> None:
         """Route the request and send response.
@@ -428,10 +469,8 @@ class GeminiServerProtocol(asyncio.Protocol):
             allow, error_response = task.result()
 
             if not allow:
-                # Middleware rejected request - send error response
-                if self.transport and error_response:
-                    self.transport.write(error_response.encode("utf-8"))
-                    self.transport.close()
+                # Middleware rejected request - send its response line
+                self._send_middleware_rejection(error_response)
                 return
 
             # Middleware allowed request - continue routing
@@ -445,6 +484,20 @@ class GeminiServerProtocol(asyncio.Protocol):
                 exception_type=type(e).__name__,
             )
             self._send_error_response(StatusCode.TEMPORARY_FAILURE, "Middleware error")
+
+    def _send_middleware_rejection(self, error_response: object) -> None:
+        """Send the "<STATUS> <META>\\r\\n" line a middleware component returned.
+
+        A missing or malformed line still refuses the request (status 40).
+        """
+        status, meta = StatusCode.TEMPORARY_FAILURE.value, "Request refused"
+        if isinstance(error_response, str):
+            line = error_response.removesuffix("\r\n")
+            code, _, text = line.partition(" ")
+            if len(code) == 2 and code.isascii() and code.isdigit():
+                if not 20 <= int(code) <= 29:  # a refusal is never a success
+                    status, meta = int(code), text
+        self._send_response(GeminiResponse(status=status, meta=meta))
 
     def connection_lost(self, exc: Exception | None) -> None:
         """Called when the connection is closed.
